@@ -393,7 +393,10 @@ func (b *Binlog) RunPollLoop() error {
 				continue
 			} else if err != nil {
 				b.logger.Error("livesql: failed to parse rows event", "error", err)
-				continue
+				// We don't know which rows changed (e.g. the table's schema changed):
+				// deliver an update carrying the error so that every live query on
+				// the table is invalidated instead of silently missing the change.
+				u = &update{table: string(inner.Table.Table), err: err}
 			}
 
 			b.delayMu.Lock()
